@@ -25,7 +25,6 @@ const (
 	flagMixAll  = "F5:all-rule-over-types-with-different-operations"
 	flagOrder   = "F6:acl-order-differs-from-source-text"
 	flagShared  = "F8:rule-fields-changed-after-declaration"
-	flagVsqlAll = "F9:vsql-all-on-table-lacks-operations"
 )
 
 // fieldsChanged: some rule of the built application reports a field list other than the one it was declared with
@@ -162,7 +161,6 @@ func observe(sc *Scenario) (appdef.IAppDef, error) {
 	mixed := mixedAll(sc, app)
 	orderLost := sc.Vsql && !textOrderKept(sc, app)
 	changed := fieldsChanged(sc, app)
-	lacking := allLacksOperations(sc, app)
 	for i := range sc.Queries {
 		q := &sc.Queries[i]
 		q.Flags = nil
@@ -175,9 +173,6 @@ func observe(sc *Scenario) (appdef.IAppDef, error) {
 		}
 		if changed {
 			q.Flags = addFlag(q.Flags, flagShared)
-		}
-		if lacking[q.Res] {
-			q.Flags = addFlag(q.Flags, flagVsqlAll)
 		}
 		if w, t := app.Workspace(qn(q.Ws)), app.Workspace(qn(q.Ws)).Type(qn(q.Res)); t != appdef.NullType {
 			for _, m := range mixed {
@@ -245,9 +240,6 @@ func observe(sc *Scenario) (appdef.IAppDef, error) {
 		}
 		if changed {
 			p.Flags = addFlag(p.Flags, flagShared)
-		}
-		if len(lacking) > 0 {
-			p.Flags = addFlag(p.Flags, flagVsqlAll)
 		}
 		for _, m := range mixed {
 			if w.Inherits(m.ws) {
